@@ -93,104 +93,7 @@ func checkDispatch(c *Ctx, r *Rec, cr *collRoles) {
 	r.check(strings.Join(rk, ",") == strings.Join(ck, ","), "D4-dispatch-agreement", "agent."+cr.n.Obj().Name()+"/kind-sets", c.pos(rankD.Pos()),
 		fmt.Sprintf("both dispatchers handle the same %d kinds", len(rk)),
 		fmt.Sprintf("the rank dispatcher handles kinds %v, the compare dispatcher %v: a value of a kind in only one of them can be compared but not ranked (or the reverse)", diff(rk, ck), diff(ck, rk)))
-	// intrinsic kinds admitted == arms of the intrinsic ranker
-	var intrinsicFD *ast.FuncDecl
-	var admitted []string
-	sw, _ := kindClauses(info, rankD)
-	for i, cl := range sw.Body.List {
-		cc := cl.(*ast.CaseClause)
-		if len(cc.Body) == 1 {
-			if rs, ok := cc.Body[0].(*ast.ReturnStmt); ok && len(rs.Results) == 1 {
-				if call, ok := ast.Unparen(rs.Results[0]).(*ast.CallExpr); ok {
-					if cf := calleeOf(info, call); cf != nil {
-						if d := c.declOf(cf); d != nil {
-							if isw, _ := kindClauses(info, d); isw != nil && d != rankD {
-								intrinsicFD = d
-								admitted = rc[i]
-							}
-						}
-					}
-				}
-			}
-		}
-	}
-	if intrinsicFD == nil {
-		r.undecided("D4-dispatch-agreement", "agent."+cr.n.Obj().Name()+"/intrinsic-kinds", c.pos(rankD.Pos()), "cannot bind the intrinsic ranker")
-	} else {
-		isw, icl := kindClauses(info, intrinsicFD)
-		ik := flatten(icl)
-		r.check(strings.Join(ik, ",") == strings.Join(admitted, ","), "D4-dispatch-agreement", "agent."+cr.n.Obj().Name()+"/intrinsic-kinds", c.pos(intrinsicFD.Pos()),
-			fmt.Sprintf("the %d intrinsic kinds admitted by the dispatcher are exactly the arms of the intrinsic ranker", len(ik)),
-			fmt.Sprintf("admitted but without an arm (falls into the panic default): %v; arm without admission: %v", diff(admitted, ik), diff(ik, admitted)))
-		// arms: same accessor on both operands, passed in order
-		params := paramObjs(info, intrinsicFD)
-		mir := newMirror(info, intrinsicFD, params[0], params[1])
-		for _, cl := range isw.Body.List {
-			cc := cl.(*ast.CaseClause)
-			if cc.List == nil {
-				continue
-			}
-			var names []string
-			for _, e := range cc.List {
-				names = append(names, exprStr(e))
-			}
-			construct := c.fdName(intrinsicFD) + "/arm[" + strings.Join(names, ",") + "]"
-			bad := "the arm does not end in a call of a leaf ranker"
-			for _, s := range cc.Body {
-				rs, ok := s.(*ast.ReturnStmt)
-				if !ok || len(rs.Results) != 1 {
-					continue
-				}
-				call, ok := ast.Unparen(rs.Results[0]).(*ast.CallExpr)
-				if !ok || len(call.Args) != 2 {
-					continue
-				}
-				a0 := resolveInitIn(info, cc, call.Args[0])
-				a1 := resolveInitIn(info, cc, call.Args[1])
-				// the class of values must be preserved from the reflect accessor to the leaf:
-				// Int() -> signed, Uint() -> unsigned, Float() -> float, Complex() -> complex, ...
-				classOf := func(t types.Type) string {
-					b, ok := t.Underlying().(*types.Basic)
-					if !ok {
-						return "?"
-					}
-					switch {
-					case b.Info()&types.IsBoolean != 0:
-						return "boolean"
-					case b.Info()&types.IsUnsigned != 0:
-						return "unsigned"
-					case b.Info()&types.IsInteger != 0:
-						return "signed"
-					case b.Info()&types.IsFloat != 0:
-						return "float"
-					case b.Info()&types.IsComplex != 0:
-						return "complex"
-					case b.Info()&types.IsString != 0:
-						return "string"
-					}
-					return "?"
-				}
-				lossy := ""
-				if src := info.Types[a0].Type; src != nil {
-					if dst := info.Types[call.Args[0]].Type; dst != nil && classOf(src) != classOf(dst) {
-						lossy = fmt.Sprintf("the operands are extracted as %s values (%s) but handed to the leaf as %s values: the conversion is not exact for all values (integers above 2^53 collapse as float64), so distinct values rank Equal while CompareValues tells them apart", classOf(src), exprStr(a0), classOf(dst))
-					}
-				}
-				switch {
-				case lossy != "":
-					bad = lossy
-				case !mir.mirrorEq(a0, a1):
-					bad = fmt.Sprintf("the operands are extracted differently: %s vs %s", exprStr(a0), exprStr(a1))
-				case mir.side(a0) != 0:
-					bad = "the leaf is called with the operands exchanged (or both taken from one side)"
-				default:
-					bad = ""
-				}
-			}
-			r.check(bad == "", "D4-intrinsic-arms", construct, c.pos(cc.Pos()), "both operands extracted by the same accessor and passed as (first, second)", bad)
-		}
-		r.floor("D4-intrinsic-arms", 8)
-	}
+	checkIntrinsicArms(c, r, cr, rankD, "D4-intrinsic-arms")
 	checkLadders(c, r, cr, rankD, true, "D3-nil-ladders")
 	r.floor("D3-nil-ladders", 1)
 }
@@ -402,4 +305,110 @@ func rankName(cr *collRoles, v int64) string {
 		return "Greater"
 	}
 	return fmt.Sprint(v)
+}
+
+// checkIntrinsicArms: the intrinsic kinds admitted by the rank dispatcher are
+// exactly the arms of the intrinsic ranker, and each arm extracts both operands
+// by the same accessor, keeps their class of values and passes them in order.
+func checkIntrinsicArms(c *Ctx, r *Rec, cr *collRoles, rankD *ast.FuncDecl, rule string) {
+	info := cr.info
+	_, rc := kindClauses(info, rankD)
+	// intrinsic kinds admitted == arms of the intrinsic ranker
+	var intrinsicFD *ast.FuncDecl
+	var admitted []string
+	sw, _ := kindClauses(info, rankD)
+	for i, cl := range sw.Body.List {
+		cc := cl.(*ast.CaseClause)
+		if len(cc.Body) == 1 {
+			if rs, ok := cc.Body[0].(*ast.ReturnStmt); ok && len(rs.Results) == 1 {
+				if call, ok := ast.Unparen(rs.Results[0]).(*ast.CallExpr); ok {
+					if cf := calleeOf(info, call); cf != nil {
+						if d := c.declOf(cf); d != nil {
+							if isw, _ := kindClauses(info, d); isw != nil && d != rankD {
+								intrinsicFD = d
+								admitted = rc[i]
+							}
+						}
+					}
+				}
+			}
+		}
+	}
+	if intrinsicFD == nil {
+		r.undecided("D4-dispatch-agreement", "agent."+cr.n.Obj().Name()+"/intrinsic-kinds", c.pos(rankD.Pos()), "cannot bind the intrinsic ranker")
+	} else {
+		isw, icl := kindClauses(info, intrinsicFD)
+		ik := flatten(icl)
+		r.check(strings.Join(ik, ",") == strings.Join(admitted, ","), "D4-dispatch-agreement", "agent."+cr.n.Obj().Name()+"/intrinsic-kinds", c.pos(intrinsicFD.Pos()),
+			fmt.Sprintf("the %d intrinsic kinds admitted by the dispatcher are exactly the arms of the intrinsic ranker", len(ik)),
+			fmt.Sprintf("admitted but without an arm (falls into the panic default): %v; arm without admission: %v", diff(admitted, ik), diff(ik, admitted)))
+		// arms: same accessor on both operands, passed in order
+		params := paramObjs(info, intrinsicFD)
+		mir := newMirror(info, intrinsicFD, params[0], params[1])
+		for _, cl := range isw.Body.List {
+			cc := cl.(*ast.CaseClause)
+			if cc.List == nil {
+				continue
+			}
+			var names []string
+			for _, e := range cc.List {
+				names = append(names, exprStr(e))
+			}
+			construct := c.fdName(intrinsicFD) + "/arm[" + strings.Join(names, ",") + "]"
+			bad := "the arm does not end in a call of a leaf ranker"
+			for _, s := range cc.Body {
+				rs, ok := s.(*ast.ReturnStmt)
+				if !ok || len(rs.Results) != 1 {
+					continue
+				}
+				call, ok := ast.Unparen(rs.Results[0]).(*ast.CallExpr)
+				if !ok || len(call.Args) != 2 {
+					continue
+				}
+				a0 := resolveInitIn(info, cc, call.Args[0])
+				a1 := resolveInitIn(info, cc, call.Args[1])
+				// the class of values must be preserved from the reflect accessor to the leaf:
+				// Int() -> signed, Uint() -> unsigned, Float() -> float, Complex() -> complex, ...
+				classOf := func(t types.Type) string {
+					b, ok := t.Underlying().(*types.Basic)
+					if !ok {
+						return "?"
+					}
+					switch {
+					case b.Info()&types.IsBoolean != 0:
+						return "boolean"
+					case b.Info()&types.IsUnsigned != 0:
+						return "unsigned"
+					case b.Info()&types.IsInteger != 0:
+						return "signed"
+					case b.Info()&types.IsFloat != 0:
+						return "float"
+					case b.Info()&types.IsComplex != 0:
+						return "complex"
+					case b.Info()&types.IsString != 0:
+						return "string"
+					}
+					return "?"
+				}
+				lossy := ""
+				if src := info.Types[a0].Type; src != nil {
+					if dst := info.Types[call.Args[0]].Type; dst != nil && classOf(src) != classOf(dst) {
+						lossy = fmt.Sprintf("the operands are extracted as %s values (%s) but handed to the leaf as %s values: the conversion is not exact for all values (integers above 2^53 collapse as float64), so distinct values rank Equal while CompareValues tells them apart", classOf(src), exprStr(a0), classOf(dst))
+					}
+				}
+				switch {
+				case lossy != "":
+					bad = lossy
+				case !mir.mirrorEq(a0, a1):
+					bad = fmt.Sprintf("the operands are extracted differently: %s vs %s", exprStr(a0), exprStr(a1))
+				case mir.side(a0) != 0:
+					bad = "the leaf is called with the operands exchanged (or both taken from one side)"
+				default:
+					bad = ""
+				}
+			}
+			r.check(bad == "", rule, construct, c.pos(cc.Pos()), "both operands extracted by the same accessor and passed as (first, second)", bad)
+		}
+		r.floor(rule, 8)
+	}
 }
